@@ -20,3 +20,5 @@ pub use companion::BasicDataCompanion;
 pub use basic::NoOpCompanion;
 
 pub use basic::*;
+#[cfg(garnish_verif)]
+pub use storage::{ReallocationStrategy, StorageSettings};
